@@ -2,6 +2,8 @@
    Transcribed from /repo/consensus/votecounter/{ballot,round_data,vote_counter}.go and
    /repo/consensus/tendermint/{tendermint,process,broadcast,timeout,rule_*}.go.
    No proofs in this file; it is extracted to OCaml and run against the Go code.
+   ProcessWAL / ProcessSync (process.go), calls of all seven methods, the log a run writes and its replay, and
+   the state comparison st_sim_b are in the last part of the file.
 
    Conventions: heights / voting powers / addresses / hashes / values are N, rounds are Z (Go int; -1 is the
    "no round" marker, Byzantine messages may carry any round).  The threshold formulas f and q are written
@@ -612,3 +614,244 @@ Fixpoint decisions_agree (l : list (N * hash)) : bool :=
   | [] => true
   | (h, i) :: r => forallb (fun e => negb (fst e =? h) || (snd e =? i)) r && decisions_agree r
   end.
+
+(* ====================================================================================================
+   process.go: ProcessWAL and ProcessSync, the WAL entries a run writes, and calls of all seven Process*
+   methods.  (Names in this part are chosen not to clash with C13.Model, which imports this file.)
+   ==================================================================================================== *)
+
+(* consensus/types/wal: the five entry kinds *)
+Inductive wentry :=
+| WStart (h : N)
+| WProposal (p : proposal)
+| WPrevote (v : vote)
+| WPrecommit (v : vote)
+| WTimeout (k : phase) (h : N) (r : Z).
+
+(* ProcessWAL: a type switch that hands the entry to the Process* method of its kind.  It suppresses
+   NOTHING itself: the returned actions are the ones the live call returns, WriteWAL included (it is
+   consensus/driver.execute(isReplaying = true) that skips WriteWAL and the flushes).  A Start entry is
+   replayed as ProcessStart(0) whatever height it carries. *)
+Definition process_wal_x (c : cfg) (s : state) (e : wentry) : state * list action * bool :=
+  match e with
+  | WStart _ => step_x c s (IStart 0)
+  | WProposal p => step_x c s (IProposal p)
+  | WPrevote v => step_x c s (IPrevote v)
+  | WPrecommit v => step_x c s (IPrecommit v)
+  | WTimeout k h r => step_x c s (ITimeout k h r)
+  end.
+Definition process_wal (c : cfg) (s : state) (e : wentry) : state * list action := fst (process_wal_x c s e).
+
+(* ProcessSync(proposal, precommits):
+     actions := s.ProcessProposal(proposal)
+     for _, precommit := range precommits { actions = append(actions, s.ProcessPrecommit(&precommit)...) }
+   No check of its own (height, round, sender, quorum): everything is left to ProcessProposal /
+   ProcessPrecommit, i.e. to the vote counter and the rules. *)
+Fixpoint sync_precommits (c : cfg) (s : state) (acts : list action) (ex : bool) (pcs : list vote)
+  : state * list action * bool :=
+  match pcs with
+  | [] => (s, acts, ex)
+  | v :: rest =>
+      let '(s', a, x) := step_x c s (IPrecommit v) in
+      sync_precommits c s' (acts ++ a) (ex || x) rest
+  end.
+Definition process_sync_x (c : cfg) (s : state) (p : proposal) (pcs : list vote) : state * list action * bool :=
+  let '(s1, a1, x1) := step_x c s (IProposal p) in sync_precommits c s1 a1 x1 pcs.
+Definition process_sync (c : cfg) (s : state) (p : proposal) (pcs : list vote) : state * list action :=
+  fst (process_sync_x c s p pcs).
+
+(* one call of the StateMachine interface *)
+Inductive call :=
+| KIn (i : input)                              (* ProcessStart / Proposal / Prevote / Precommit / Timeout *)
+| KWal (e : wentry)                            (* ProcessWAL *)
+| KSync (p : proposal) (pcs : list vote).      (* ProcessSync *)
+
+Definition wentry_input (e : wentry) : input :=
+  match e with
+  | WStart _ => IStart 0
+  | WProposal p => IProposal p
+  | WPrevote v => IPrevote v
+  | WPrecommit v => IPrecommit v
+  | WTimeout k h r => ITimeout k h r
+  end.
+
+(* the Process{Start,Proposal,Prevote,Precommit,Timeout} calls a call is made of, in order *)
+Definition call_inputs (x : call) : list input :=
+  match x with
+  | KIn i => [i]
+  | KWal e => [wentry_input e]
+  | KSync p pcs => IProposal p :: map IPrecommit pcs
+  end.
+
+Definition call_step_x (c : cfg) (s : state) (x : call) : state * list action * bool :=
+  match x with
+  | KIn i => step_x c s i
+  | KWal e => process_wal_x c s e
+  | KSync p pcs => process_sync_x c s p pcs
+  end.
+Definition call_step (c : cfg) (s : state) (x : call) : state * list action := fst (call_step_x c s x).
+
+(* what the call did, call by inner call (the monitor sees the messages in the order the state machine does) *)
+Definition call_events (c : cfg) (s : state) (x : call) : list event := snd (run c s (call_inputs x)).
+
+Fixpoint run_calls (c : cfg) (s : state) (xs : list call) : state * list (call * list action) :=
+  match xs with
+  | [] => (s, [])
+  | x :: rest =>
+      let '(s', acts) := call_step c s x in
+      let '(s'', l) := run_calls c s' rest in
+      (s'', (x, acts) :: l)
+  end.
+Fixpoint calls_events (c : cfg) (s : state) (xs : list call) : list event :=
+  match xs with
+  | [] => []
+  | x :: rest => call_events c s x ++ calls_events c (fst (call_step c s x)) rest
+  end.
+Definition calls_actions (l : list (call * list action)) : list action := flat_map snd l.
+
+(* the calling discipline for calls: as ok_input; ProcessWAL of a Timeout entry only while the height is
+   started (the log holds the Start entry of a height before its timeouts); ProcessSync needs nothing *)
+Definition ok_call (s : state) (x : call) : bool :=
+  match x with
+  | KIn i => ok_input s i
+  | KWal e => ok_input s (wentry_input e)
+  | KSync _ _ => true
+  end.
+Fixpoint disciplined_calls (c : cfg) (s : state) (xs : list call) : bool :=
+  match xs with
+  | [] => true
+  | x :: rest => ok_call s x && disciplined_calls c (fst (call_step c s x)) rest
+  end.
+
+(* split the action list a call returned into the lists of its inner calls, given their lengths (the harness
+   has the concatenation only; the lengths are the model's) *)
+Fixpoint split_by (lens : list nat) (acts : list action) : list (list action) :=
+  match lens with
+  | [] => []
+  | [_] => [acts]
+  | n :: rest => firstn n acts :: split_by rest (skipn n acts)
+  end.
+Definition call_impl_events (c : cfg) (s : state) (x : call) (impl : list action) : list event :=
+  let evs := call_events c s x in
+  combine (map fst evs) (split_by (map (fun e => length (snd e)) evs) impl).
+
+(* ---------- the log a run writes, and its replay ---------- *)
+Definition wal_of_action (a : action) : list wentry :=
+  match a with
+  | AWalStart h => [WStart h]
+  | AWalProposal p => [WProposal p]
+  | AWalPrevote v => [WPrevote v]
+  | AWalPrecommit v => [WPrecommit v]
+  | AWalTimeout k h r => [WTimeout k h r]
+  | _ => []
+  end.
+Definition wlog_of (acts : list action) : list wentry := flat_map wal_of_action acts.
+(* the entries a history wrote, in order *)
+Definition wal_written (evs : list event) : list wentry := wlog_of (all_actions evs).
+
+Fixpoint replay_wal (c : cfg) (s : state) (es : list wentry) : state * list (wentry * list action) :=
+  match es with
+  | [] => (s, [])
+  | e :: rest =>
+      let '(s', acts) := process_wal c s e in
+      let '(s'', l) := replay_wal c s' rest in
+      (s'', (e, acts) :: l)
+  end.
+Definition replay_actions (l : list (wentry * list action)) : list action := flat_map snd l.
+
+(* The discipline under which the log determines the state (each clause is shown necessary in Props.v):
+   - ProcessStart(r) has r >= 0 (ok_input), and r = 0 when the height is not started (ProcessWAL replays a Start
+     entry as ProcessStart(0));
+   - a message arrives while the height is started (otherwise it is counted but not logged);
+   - a precommit does not take the TriggerSync path (counted, lastTriggerSync moved, not logged);
+   - a timeout arrives while the height is started, and if it is stale (it matches nothing, so it is not
+     logged) no rule is pending (processLoop runs even for a stale timeout). *)
+Definition timeout_live (s : state) (k : phase) (h : N) (r : Z) : bool :=
+  (s_h s =? h) && (s_r s =? r)%Z &&
+  match k with
+  | SPropose => step_eqb (s_step s) SPropose
+  | SPrevote => step_eqb (s_step s) SPrevote
+  | SPrecommit => true
+  end.
+Definition rule_none (ru : rule) : bool := match ru with RNone => true | _ => false end.
+Definition has_trigger_sync (acts : list action) : bool :=
+  existsb (fun a => match a with ATriggerSync _ _ => true | _ => false end) acts.
+Definition wal_ok_input (c : cfg) (s : state) (i : input) : bool :=
+  match i with
+  | IStart r => (0 <=? r)%Z && (s_started s || (r =? 0)%Z)
+  | IProposal _ => s_started s
+  | IPrevote _ => s_started s
+  | IPrecommit _ => s_started s && negb (has_trigger_sync (snd (step c s i)))
+  | ITimeout k h r => s_started s && (timeout_live s k h r || rule_none (select c s None))
+  end.
+Fixpoint wal_disciplined (c : cfg) (s : state) (ins : list input) : bool :=
+  match ins with
+  | [] => true
+  | i :: rest => wal_ok_input c s i && wal_disciplined c (fst (step c s i)) rest
+  end.
+
+(* ---------- "the same state": all consensus variables and the sync bookkeeping equal, and the vote
+   counters hold the same round data in every cell (height >= current height, round).  Not compared: the
+   order of Go map entries and empty map entries (getRoundData creates one for a rejected message). ---------- *)
+Definition vfut (vc : vcounter) (h : N) : rmap :=
+  match aget N.eqb (vc_future vc) h with Some m => m | None => [] end.
+Definition vcell (vc : vcounter) (h : N) (r : Z) : rdata :=
+  rm_get (if h =? vc_h vc then vc_rounds vc else vfut vc h) r.
+
+Fixpoint leqb {A : Type} (eqb : A -> A -> bool) (l1 l2 : list A) : bool :=
+  match l1, l2 with
+  | [], [] => true
+  | x :: r1, y :: r2 => eqb x y && leqb eqb r1 r2
+  | _, _ => false
+  end.
+Definition bal_eqb (a b : ballot) : bool := Bool.eqb (fst a) (fst b) && Bool.eqb (snd a) (snd b).
+Definition bs_eqb (a b : bset) : bool :=
+  leqb (fun x y => (fst x =? fst y) && bal_eqb (snd x) (snd y)) (b_bal a) (b_bal b) &&
+  (b_pv a =? b_pv b) && (b_pc a =? b_pc b) && (b_tot a =? b_tot b).
+Definition opr_eqb (a b : option proposal) : bool :=
+  match a, b with Some p, Some q => proposal_eqb p q | None, None => true | _, _ => false end.
+Definition rd_eqb (a b : rdata) : bool :=
+  opr_eqb (r_prop a) (r_prop b) && (r_unc a =? r_unc b) &&
+  leqb (fun x y => (fst x =? fst y) && bs_eqb (snd x) (snd y)) (r_ids a) (r_ids b) &&
+  bs_eqb (r_nil a) (r_nil b) && bs_eqb (r_all a) (r_all b).
+
+Definition vc_keys (vc : vcounter) : list (N * Z) :=
+  map (fun e => (vc_h vc, fst e)) (vc_rounds vc) ++
+  flat_map (fun hm => map (fun e => (fst hm, fst e)) (snd hm)) (vc_future vc).
+Definition vc_sim_b (a b : vcounter) : bool :=
+  (vc_h a =? vc_h b) &&
+  forallb (fun k => (fst k <? vc_h a) || rd_eqb (vcell a (fst k) (snd k)) (vcell b (fst k) (snd k)))
+          (vc_keys a ++ vc_keys b).
+Definition oval_eqb (a b : option value) : bool :=
+  match a, b with Some x, Some y => x =? y | None, None => true | _, _ => false end.
+Definition st_sim_b (s s' : state) : bool :=
+  (s_h s =? s_h s') && (s_r s =? s_r s')%Z && step_eqb (s_step s) (s_step s') &&
+  oval_eqb (s_lv s) (s_lv s') && (s_lr s =? s_lr s')%Z && oval_eqb (s_vv s) (s_vv s') && (s_vr s =? s_vr s')%Z &&
+  Bool.eqb (s_tpv s) (s_tpv s') && Bool.eqb (s_tpc s) (s_tpc s') && Bool.eqb (s_lvs s) (s_lvs s') &&
+  Bool.eqb (s_started s) (s_started s') && (s_lts s =? s_lts s') && (s_lq s =? s_lq s') && (s_nval s =? s_nval s') &&
+  vc_sim_b (s_vc s) (s_vc s').
+
+Fixpoint acts_eqb (a b : list action) : bool :=
+  match a, b with
+  | [], [] => true
+  | x :: r1, y :: r2 =>
+      (match x, y with
+       | AWalStart h, AWalStart h' => h =? h'
+       | AWalProposal p, AWalProposal q | ABroadcastProposal p, ABroadcastProposal q | ACommit p, ACommit q => proposal_eqb p q
+       | AWalPrevote v, AWalPrevote u | AWalPrecommit v, AWalPrecommit u
+       | ABroadcastPrevote v, ABroadcastPrevote u | ABroadcastPrecommit v, ABroadcastPrecommit u =>
+           (v_h v =? v_h u) && (v_r v =? v_r u)%Z && (v_from v =? v_from u) && oid_eqb (v_id v) (v_id u)
+       | AWalTimeout k h r, AWalTimeout k' h' r' | ASchedule k h r, ASchedule k' h' r' =>
+           step_eqb k k' && (h =? h') && (r =? r')%Z
+       | ATriggerSync s e, ATriggerSync s' e' => (s =? s') && (e =? e')
+       | _, _ => false
+       end) && acts_eqb r1 r2
+  | _, _ => false
+  end.
+
+(* the conclusion of C12_wal_replay_same_state as one boolean on a history: replaying what it logged
+   reaches the same state and returns the same actions *)
+Definition wal_replay_same (c : cfg) (s0 : state) (ins : list input) : bool :=
+  let r := run c s0 ins in
+  let w := replay_wal c s0 (wal_written (snd r)) in
+  st_sim_b (fst w) (fst r) && acts_eqb (replay_actions (snd w)) (all_actions (snd r)).
